@@ -87,7 +87,8 @@ def sym (s : String) : Sexp := Sexp.mkSym s
 
 def hashTok : Token := ⟨.symbol, "hash".toList⟩
 
-/-- first byte of the UTF-8 encoding of a code point (`rune(tok.str[0])`) -/
+/-- first byte of the UTF-8 encoding of a code point (`rune(tok.str[0])`, what the parser took
+before repo fix C12-01; kept for `Model/LegacyReadPrint`) -/
 def firstByte (c : Char) : Nat :=
   let n := c.toNat
   if n < 0x80 then n
@@ -113,7 +114,7 @@ def atomOfTok (tok : Token) : Option (Option Sexp) :=   -- none: not an atom cas
   | .hex => some ((NumLit.parseInt64 16 tok.str).map .int)
   | .oct => some ((NumLit.parseInt64 8 tok.str).map .int)
   | .binary => some ((NumLit.parseInt64 2 tok.str).map .int)
-  | .char => some (some (.char (match tok.str with | c :: _ => firstByte c | [] => 0)))
+  | .char => some (some (.char (match tok.str with | c :: _ => c.toNat | [] => 0xFFFD)))   -- utf8.DecodeRuneInString (repo fix C12-01)
   | .string => some (some (.str tok.str false))
   | .backtickString => some (some (.str tok.str true))
   | .float =>
